@@ -1,20 +1,45 @@
+import Ecal.Model.Path
 /-! GENERATED on every run by `harness C17 -tool extract` (go/ast over cli, cli/tool, interpreter, util
-of the tree under test, outside tests) — do not edit.
-Where the `Root` of every `util.FileImportLocator` composite literal comes from. -/
+of the tree under test, outside tests) — do not edit. Verdicts: `configured` (established) / `REFUTED` / `unknown`. -/
 namespace Ecal.Gen.C17
 
-/-- (site, Root expression, verdict, reason) — verdict `configured` / `REFUTED` / `unknown` -/
-def locatorRoots : List (String × String × String × String) := [
-  ("cli/tool:tool.CLIInterpreter.CreateRuntimeProvider", "*i.Dir", "configured", ""),
-  ("interpreter:interpreter.NewECALRuntimeProvider", "filepath.Dir(os.Args[0])", "configured", "")
+/-- where the `Root` of every `util.FileImportLocator` composite literal comes from:
+    (site, Root expression, verdict, reason, is it the configured value itself) -/
+def locatorRoots : List (String × String × String × String × String) := [
+  ("cli/tool:tool.CLIInterpreter.CreateRuntimeProvider", "*i.Dir", "configured", "default through `wd, _ := os.Getwd()`: if Getwd fails the root is \"\" which denotes the same working directory", "configured"),
+  ("interpreter:interpreter.NewECALRuntimeProvider", "filepath.Dir(os.Args[0])", "configured", "", "REFUTED")
 ]
 
-/-- roots positively refuted: the value passes through a transformation whose error is discarded -/
+/-- roots positively refuted: the value passes through a transformation whose discarded error moves the root to another directory -/
 def refuted : List String :=
-  (locatorRoots.filter fun f => f.2.2.1 == "REFUTED").map fun f => f.1 ++ ": " ++ f.2.2.2
+  (locatorRoots.filter fun f => f.2.2.1 == "REFUTED").map fun f => f.1 ++ ": " ++ f.2.2.2.1
 
-/-- roots the extractor could not follow (not a violation; the T / J cases are amplified) -/
+/-- roots the extractor could not follow (not a violation; the T / U / J cases are amplified) -/
 def notEstablished : List String :=
-  (locatorRoots.filter fun f => f.2.2.1 == "unknown").map fun f => f.1 ++ ": " ++ f.2.2.2
+  (locatorRoots.filter fun f => f.2.2.1 == "unknown").map fun f => f.1 ++ ": " ++ f.2.2.2.1
+
+/-- `CLIInterpreter.CreateRuntimeProvider`: the locator's Root is the configured `Dir` value itself (not refuted) -/
+def toolRootIsDir : Bool := true
+
+/-- every call reachable from `FileImportLocator.Resolve` that touches the file system (or cannot be classified):
+    (site, call, verdict, reason). `configured` = after the containment test, guarded by its result, argument = the tested value. -/
+def resolveCalls : List (String × String × String × String) := [
+  ("util:util.FileImportLocator.Resolve", "ioutil.ReadFile(importPath)", "configured", "")
+]
+
+def openRefuted : List String :=
+  (resolveCalls.filter fun f => f.2.2.1 == "REFUTED").map fun f => f.1 ++ ": " ++ f.2.1 ++ " — " ++ f.2.2.2
+
+def openNotEstablished : List String :=
+  (resolveCalls.filter fun f => f.2.2.1 == "unknown").map fun f => f.1 ++ ": " ++ f.2.1 ++ " — " ++ f.2.2.2
+
+/-- the `Resolve` calls reachable from `importRuntime.Eval`: (site, receiver, verdict, reason, argument, verdict, reason) -/
+def importResolveCalls : List (String × String × String × String × String × String × String) := [
+  ("interpreter:interpreter.importRuntime.Eval", "rt.erp.ImportLocator", "configured", "", "fmt.Sprint(importPath)", "configured", "")
+]
+
+/-- the facts the import model is instantiated with (`true` = not refuted) -/
+def importFacts : Ecal.Path.ImportFacts :=
+  { receiverIsConfiguredLocator := true, argumentIsPathValue := true }
 
 end Ecal.Gen.C17
